@@ -221,8 +221,8 @@ func thoroughExtras(c *Ctx, p *Property, verifDir string) (map[string]any, int) 
 	}
 	fmt.Printf("neutrality property=%s refactorings=%d accepted=%d skipped=%d\n", p.ID, len(dirs), silent, skipped)
 	sens["neutral_refactorings"] = map[string]any{
-		"what":    "each confirmed behaviour-preserving refactoring written for this property (neutral/<id>/patch.diff) is applied to a scratch copy of the current tree; the quick check must stay silent (or undecided where the reference run was); static only",
-		"count":   len(dirs),
+		"what":     "each confirmed behaviour-preserving refactoring written for this property (neutral/<id>/patch.diff) is applied to a scratch copy of the current tree; the quick check must stay silent (or undecided where the reference run was); static only",
+		"count":    len(dirs),
 		"accepted": silent, "skipped_patch_does_not_apply": skipped,
 		"results": results,
 	}
